@@ -35,6 +35,7 @@ func (vLogger) WithLabel(name string, value string) log.Logger            { retu
 // stub expression: a path into the data model
 
 type verifExpr struct {
+	also []*verifExpr // further references of the same expression (e.g. "a + b"); the value is that of path
 	path []any // without the leading "$": e.g. {"steps","a","outputs","success","v"} or {"input","x"}
 	fail bool  // evaluation fails at run time although the dependency was produced
 	id   string
@@ -47,19 +48,33 @@ func (e *verifExpr) Type(s schema.Scope, f map[string]schema.Function, c map[str
 }
 
 func (e *verifExpr) Dependencies(s schema.Type, f map[string]schema.Function, c map[string][]byte, r expressions.UnpackRequirements) ([]expressions.Path, error) {
-	p := expressions.Path{"$"}
-	for i, x := range e.path {
-		if i >= 4 { // StopAtTerminals: the DAG only needs step.stage.output
-			break
+	var res []expressions.Path
+	for _, x := range append([]*verifExpr{e}, e.also...) {
+		p := expressions.Path{"$"}
+		for i, it := range x.path {
+			if i >= 4 { // StopAtTerminals: the DAG only needs step.stage.output
+				break
+			}
+			p = append(p, it)
 		}
-		p = append(p, x)
+		res = append(res, p)
 	}
-	return []expressions.Path{p}, nil
+	return res, nil
+}
+
+// vx2 is an expression with several references ("a + b"): it depends on all, its value is the first's.
+func vx2(first *verifExpr, more ...*verifExpr) *verifExpr {
+	return &verifExpr{path: first.path, id: first.id + "+", also: more}
 }
 
 func (e *verifExpr) Evaluate(data any, f map[string]schema.CallableFunction, c map[string][]byte) (any, error) {
 	if e.fail {
 		return nil, &verifrt.Err{Msg: "evaluation failed: " + e.id}
+	}
+	for _, x := range e.also {
+		if _, err := x.Evaluate(data, f, c); err != nil {
+			return nil, err
+		}
 	}
 	cur := data
 	for _, k := range e.path {
